@@ -258,6 +258,11 @@ Proof.
   - fin E. apply KH; reflexivity.
   - destruct (rg c r1) as [x|]; [|fin E; apply ls_refl].
     destruct (rg c r2) as [y|]; fin E; apply ls_refl.
+  - (* MAllocWith *)
+    match type of E with context [init_obj ?kk ?ss ?ww] => destruct (init_obj kk ss ww) as [o|] eqn:IO end; [|fin E; apply ls_refl].
+    assert (LV : live o = true) by (destruct k0; cbn in IO; try discriminate; inversion IO; reflexivity).
+    pose proof (ls_link c o LV) as K.
+    destruct (link c o) as [c1 i]. cbn [fst] in K. fin E. apply (ls_heap_of c c1); auto.
 Qed.
 
 Lemma histok_ls c c' H : LS c c' -> HistOK c H -> HistOK c' H.
